@@ -37,6 +37,9 @@ type scOps struct {
 	callN     int
 	obs       couchbase.Observer
 	ready     bool
+	tested    bool
+	aft       []string // operations run after the one under test
+	aftIdx    int
 	stage     int // MetaSave: which link of a vBucket's request chain is scripted
 	counted   map[int]bool
 	perKey    map[string]int
@@ -65,6 +68,12 @@ func (s *scOps) Configure(w *World) {
 	s.ops = []string{Pick(t, opNames, nil)}
 	s.behaviour = Pick(t, opBehaviours, nil)
 	s.target = t.Draw(2, nil)
+	switch s.ops[0] {
+	case "CreateDocument", "UpdateDocument", "DeleteDocument", "UpsertXattrs", "CreatePath", "MetaSave", "MetaClear":
+		if s.behaviour != "prompt" && s.behaviour != "error" {
+			s.aft = []string{"AftCreate", "AftUpdateMissing"}
+		}
+	}
 	if s.ops[0] == "MetaSave" {
 		// the save of one vBucket is a chain (xattr write, not found, create, xattr write): script any link of it
 		s.stage = t.Draw(3, nil)
@@ -139,6 +148,16 @@ func (s *scOps) runOp(w *World, name string, underTest bool) {
 		deadline = ctxT
 		f = withCtx(func(ctx context.Context) string {
 			return res(couchbase.CreateDocument(ctx, m.meta, "_default", "_default", key, []byte(`{"a":1}`), 0, 0), "")
+		})
+	case "AftCreate": // aftermath: a write the node confirms
+		deadline = ctxT
+		f = withCtx(func(ctx context.Context) string {
+			return res(couchbase.CreateDocument(ctx, m.meta, "_default", "_default", []byte("_connector:cbgo:"+c.Dcp.Group.Name+":aft1"), []byte(`{"a":1}`), 0, 0), "")
+		})
+	case "AftUpdateMissing": // aftermath: a write the node refuses (the document does not exist)
+		deadline = ctxT
+		f = withCtx(func(ctx context.Context) string {
+			return res(couchbase.UpdateDocument(ctx, m.meta, "_default", "_default", []byte("_connector:cbgo:"+c.Dcp.Group.Name+":aft-missing"), []byte(`{"a":2}`), 0, nil), "")
 		})
 	case "UpdateDocument":
 		deadline = ctxT
@@ -275,7 +294,7 @@ func (s *scOps) runOp(w *World, name string, underTest bool) {
 		r := f()
 		w.jl(&journal.Ev{K: journal.KRet, M: m.id, Vb: -1, S: "op:" + name, ID: id, S2: r})
 		w.mu.Lock()
-		if underTest {
+		if underTest || s.tested {
 			s.state = "done"
 		} else {
 			s.state = "idle"
@@ -315,7 +334,7 @@ func (s *scOps) BeforeStep(w *World) {
 			return
 		}
 		w.mu.Lock()
-		s.state = "testing"
+		s.state, s.tested = "testing", true
 		w.mu.Unlock()
 		if s.ops[0] == "Ping" && s.behaviour != "prompt" {
 			w.mu.Lock()
@@ -330,6 +349,15 @@ func (s *scOps) BeforeStep(w *World) {
 			w.mu.Unlock()
 		}
 		s.runOp(w, s.ops[0], true)
+		return
+	}
+	if state == "done" && s.aftIdx < len(s.aft) {
+		// what the abandoned request leaves behind must not leak into later operations
+		w.mu.Lock()
+		s.state = "running"
+		w.mu.Unlock()
+		s.runOp(w, s.aft[s.aftIdx], false)
+		s.aftIdx++
 		return
 	}
 	if state == "done" && w.cfg.MaxSteps > w.step {
